@@ -13,7 +13,7 @@ VARIABLE l
 \* Drift (informational): the implementation-shaped model of ScalarImpl / ScalarRegistry disagrees
 \* with what the library did.  Zero on the unchanged tree.
 Drift(c) == CASE c.dir = "in" -> c.acc # ParseImpl(c.T, c.v) \/ (c.T # "enum" /\ c.valid # ValidImpl(c.T, c.v))   \* enums have no is_valid
-              [] c.dir \in {"lit", "var"} -> Reached(c) # Pipeline(FinalReg, c.T, c.v) \/ Refused(c) = Pipeline(FinalReg, c.T, c.v)
+              [] c.dir \in {"lit", "var"} -> LET p == Pipeline(FinalReg, c.T, c.v) IN Reached(c) # p \/ Refused(c) = p
               [] OTHER -> FALSE
 
 TInit == l \in {i \in 1..Len(Cases) : i % Chunk = 1 \/ Chunk = 1}
